@@ -227,11 +227,24 @@ class World:
                 pass
             else:
                 bad.append(("internal-error-escapes", f"{desc} raised {type(e).__name__}: {e}"))
-        # contacts while failing: rate limits
+        # contacts while failing: rate limits.  Every connection attempt counts (a call that tries the
+        # failing server twice has contacted it twice), as does a request sent on a connection that was open
+        attempts = {}
+        opened = set()
+        for e in events:
+            if e[3] < 0:
+                continue
+            a = net.socks[e[3]].addr
+            if e[2] in ("connect", "connect_fail"):
+                attempts[a] = attempts.get(a, 0) + 1
+                opened.add(e[3])
+            elif e[2] in ("sendall", "sendall_fail") and e[3] not in opened:
+                attempts[a] = attempts.get(a, 0) + 1
+                opened.add(e[3])
         for a in touched:
             if a in net.failing:
                 lst = self.contacts[a]
-                lst.append(now)
+                lst.extend([now] * max(1, attempts.get(a, 1)))
                 in_rt = sum(1 for t in lst if t >= now - RT)
                 in_dt = sum(1 for t in lst if t >= now - DT)
                 idx = self.addr.index(a)
